@@ -122,6 +122,14 @@ fn main() {
         ("forward-ref", "g := \\ -> 100; h := freeze \\y -> (f := \\ -> g(); g := \\ -> y; f()); h(7)", "ok 7"),
         ("forward-ref-unbound", "h := freeze \\y -> (f := \\ -> g(); g := \\ -> y; f()); h(7)", "ok 7"),
         ("self-shadow-init", "x := 5; h := freeze (\\ -> ((\\ -> (x := x + 1; x))())); r1 := h(); x = 50; [r1, h()]", "ok [6,6]"),
+        ("switch-arms-separate-scopes", "a := 10; f := freeze \\x -> (switch (x) case (a: int) -> a * 2 case _ -> a); r1 := [f(7), f(\"s\")]; a = 100; [r1, [f(7), f(\"s\")]]", "ok [[14,10],[14,10]]"),
+        ("switch-later-arm-unbound", "ok := 1; try (f := freeze \\x -> (switch (x) case (zz: int) -> zz case _ -> zz)) catch _ -> (ok = 0); ok", "ok 0"),
+        ("switch-later-arm-assigns-outer", "a := 1; ok := 1; try (f := freeze \\x -> (switch (x) case (a: int) -> a case _ -> (a = 5; 0))) catch _ -> (ok = 0); ok", "ok 0"),
+        ("minus-call-form", "h := freeze (\\x -> -(10, x)); [h(3), h(10)]", "ok [7,0]"),
+        ("minus-call-form-outer", "base := 100; h := freeze (\\x -> -(base, x)); r := h(1); base = 5; [r, h(1)]", "ok [99,99]"),
+        ("minus-call-form-raises", "h := freeze (\\x -> -(1, x)); try h(\"s\") catch _ -> \"E\"", "ok s:45"),
+        ("unary-minus-folded", "h := freeze (\\x -> [-(3), -(2.5), -x]); h(4)", "ok [-3,f:c004000000000000,-4]"),
+        ("iteratee-declaration-leaks", "h := freeze \\ -> ((for (x <- [(y := 5; y)]) 0); y); h()", "ok 5"),
         ("dict-literal", "o := 3; h := freeze (\\x -> {x: o, \"k\": [o, x]}); r1 := h(1); o = 9; r1 == h(1)", "ok 1"),
     ];
 
